@@ -96,7 +96,7 @@ def setup(ctx):
     return {'ffis': [ffi1, ffi2], 'libs': [lib1, lib2]}
 
 
-OPS = ['create'] * 6 + ['drop'] * 6 + ['collect'] * 2 + ['call'] * 3
+OPS = ['create'] * 6 + ['drop'] * 6 + ['collect'] * 2 + ['call'] * 3 + ['selfdrop']
 
 
 def strategy(ctx):
@@ -145,17 +145,26 @@ def args_for(sig, k):
     return [wrap(a, 16), wrap(b, 8), wrap(c * 4294967311 + a, 64)]
 
 
+_DURING = [None]        # hook run inside the next callback invocation (op_selfdrop)
+
+
 def make_function(sig, ident, log, cyc):
     """the Python function behind callback `ident`; cyc (a list, or None) makes it
     part of a reference cycle with its own cdata"""
     if sig == 4:
         def fn(p):
             log.append((ident, (p[0],)))
+            hook, _DURING[0] = _DURING[0], None
+            if hook is not None:
+                hook()
             p[0] = formula(4, ident, (p[0],))
             cyc
     else:
         def fn(*args):
             log.append((ident, args))
+            hook, _DURING[0] = _DURING[0], None
+            if hook is not None:
+                hook()
             cyc
             return formula(sig, ident, args)
     return fn
@@ -305,6 +314,64 @@ class History(object):
         r = self.live[(i * 16 + k) * 7919 % len(self.live)]
         self.call(r, how, k)
         return 'call-' + ('cdata', 'from-C', 'address')[how % 3]
+
+    def op_selfdrop(self, i, _how, k):
+        """a one-shot callback: invoked through its bare address (so that the call itself holds no
+        reference to the cdata), it drops the last reference to itself from inside its own
+        invocation and makes new objects that recycle the memory; it must still return its own
+        function's result"""
+        if not self.live:
+            return None
+        pos = (i * 16 + k) * 7919 % len(self.live)
+        r = self.live.pop(pos)
+        self.freed_addrs.add(r.addr)
+        del self.addrs[r.addr]
+        made = []
+
+        def hook():
+            r.cb = None                              # the cdata dies here, during its own call
+            made.append(tuple(range(4)))
+            made.append(self.ffi.callback(SIGS[0], lambda x: 0))   # may reuse the freed closure
+        _DURING[0] = hook
+        try:
+            self.call(r, 2, k)
+        finally:
+            _DURING[0] = None
+        if r.cb is not None:
+            raise HarnessError('selfdrop hook did not run')
+        del made[:]
+        # the same with a failing body: the declared error value of *this* callback must reach the
+        # caller although the callback object died (and its memory was recycled) during the call
+        import sys
+        ffi = self.ffi
+        holder, keep = [None], []
+        raising = k % 2 == 0
+
+        def oneshot(x):
+            holder[0] = None
+            keep.append([(n, bytes(8), None, None) for n in range(3)])
+            keep.append(ffi.callback('int(int)', lambda y: 0, error=1234))
+            if raising:
+                raise ValueError('one-shot callback fails after dropping itself')
+            return x * 3 + 1
+        holder[0] = ffi.callback('int(int)', oneshot, error=-7)
+        addr = int(ffi.cast('uintptr_t', holder[0]))
+        fnptr = ffi.cast('int(*)(int)', addr)
+        old_hook = sys.unraisablehook
+        sys.unraisablehook = lambda *a: None
+        try:
+            got = fnptr(5 + i)
+        finally:
+            sys.unraisablehook = old_hook
+        want = -7 if raising else (5 + i) * 3 + 1
+        if holder[0] is not None:
+            raise HarnessError('one-shot callback did not run')
+        if got != want:
+            self.ctx.fail('a callback that dropped itself during its own invocation %s: the caller received '
+                          '%r, expected %r' % ('and then raised (error=-7)' if raising else 'returned normally',
+                                               got, want), step=self.step)
+        del keep[:]
+        return 'selfdrop'
 
     def check(self, full=False):
         live = self.live
